@@ -87,6 +87,7 @@ Modified(ev) == (IF ev.post.k # "SAME" THEN {"C18:packet_modified"} ELSE {})
 \* bufsame = FALSE: the input octets, or the memory behind them (the slice's spare capacity), were written;
 \* tailsame = FALSE: the same octets with other memory behind them decode differently
 InputMod(ev) == (IF ~ev.bufsame THEN {"C18:input_modified"} ELSE {})
+                \cup (IF "distinct" \in DOMAIN ev /\ ~ev.distinct THEN {"C18:one_object_returned_for_two_frames", "C06:one_object_returned_for_two_frames"} ELSE {})
                 \cup (IF "tailsame" \in DOMAIN ev /\ ~ev.tailsame
                       THEN {"C18:decode_depends_on_memory_beyond_input"} \cup (IF ev.op = "datagram" THEN {"C06:depends_on_octets_outside_datagram"} ELSE {})
                       ELSE {})
